@@ -273,7 +273,7 @@ func Main(id string, scenarios []Scenario, extra Extra, seqParts ...SeqPart) {
 		os.Stdout = null
 	}
 	thorough := run.Thorough()
-	budget := 100 * time.Second
+	budget := 240 * time.Second // safety net only: the per-scenario execution caps decide how much a quick run explores
 	if thorough {
 		budget = 25 * time.Minute
 	}
@@ -452,9 +452,9 @@ func Main(id string, scenarios []Scenario, extra Extra, seqParts ...SeqPart) {
 			}
 			capExecs := sc.MaxExecs
 			if capExecs == 0 {
-				capExecs = 400000
+				capExecs = 100000
 				if thorough {
-					capExecs = 8000000
+					capExecs = 5000000
 				}
 			}
 			caps[sc.Name] = capExecs
